@@ -1,5 +1,7 @@
 SPECIFICATION Spec
 CONSTANTS ResetOnError = FALSE
+ ZeroTimerGuarded = TRUE
+ KindSet = "all"
  NN = 2
  Mode = "plain"
 INVARIANT Released
